@@ -48,6 +48,9 @@ type stmt struct {
 	// emit: what the event is given besides the context: 0 nothing; 1 two arrays open at once, filled alternately;
 	// 2 two dicts open at once; 3 three arrays and a dict, attached in reverse order of creation
 	Open int `json:"open,omitempty"`
+	// root: how the field-less root is obtained (tiny.go): 0 New(w); 1 Nop().Output(w); 2 Logger{}.Output(w);
+	// 3 New(w).Hook(); each followed by Level(wide)
+	Root int `json:"root,omitempty"`
 }
 
 // the bytes a context method adds for (key, val), as JSON written independently of zerolog
@@ -57,6 +60,8 @@ func methodValue(meth, key, val string) (k string, raw string) {
 		return key, fmt.Sprintf("[%q]", val)
 	case "dict", "object", "iface":
 		return key, fmt.Sprintf("{\"in\":%q}", val)
+	case "int", "bool":
+		return key, val // Int(key, n) / Bool(key, b): val is the decimal / true|false text
 	}
 	return key, fmt.Sprintf("%q", val) // Str, embed, fields
 }
@@ -77,6 +82,12 @@ func applyMethod(cx zerolog.Context, meth, key, val string) zerolog.Context {
 		return cx.EmbedObject(strObj{key, val})
 	case "fields":
 		return cx.Fields([]interface{}{key, val})
+	case "int":
+		n := 0
+		fmt.Sscanf(val, "%d", &n)
+		return cx.Int(key, n)
+	case "bool":
+		return cx.Bool(key, val == "true")
 	}
 	return cx.Str(key, val)
 }
@@ -208,7 +219,17 @@ func execute(p []stmt) (obs [][]byte, want [][]byte, inLang bool, reuse bool, lv
 		get := func() *cell { return &cells[s.X] }
 		switch s.K {
 		case "root":
-			l := zerolog.New(w).Level(zerolog.Level(wide))
+			var l zerolog.Logger
+			switch s.Root {
+			case 1:
+				l = zerolog.Nop().Output(w).Level(zerolog.Level(wide))
+			case 2:
+				l = zerolog.Logger{}.Output(w).Level(zerolog.Level(wide))
+			case 3:
+				l = zerolog.New(w).Hook().Level(zerolog.Level(wide))
+			default:
+				l = zerolog.New(w).Level(zerolog.Level(wide))
+			}
 			cells = append(cells, cell{log: &l, live: true, nilc: true, lvl: wide})
 		case "with":
 			c := get()
@@ -594,7 +615,7 @@ func (h probeHook) Run(e *zerolog.Event, l zerolog.Level, m string) {
 }
 
 func run(c *Ctx) {
-	c.Res.Rule = "derivation programs in SSA form over With / context ops / Logger / Level|Sample|Hook copies / Output / UpdateContext / emit, random trees (6-28 statements, branching, events from every node in random order); 3 streams: inside the property's language, with large values (contexts beyond the 500-byte capacity), and non-linear (a Context value reused: outside the language, K1 shape); context methods are appends or Reset() (on a Context value or inside the UpdateContext function); Level copies set wide / trace..panic / NoLevel / Disabled, every emit also sends one event per level trace..panic (emitted iff at or above the path's level, same context), a muted logger is read through a re-opening Level copy; directed sweeps: Reset() with live relatives (0/1/3 parent fields x Level|Sample|Hook|With|Output relatives x 4 update shapes x UpdateContext|Context value) and muted paths (Level(Disabled|NoLevel|warn|wide) before With() x 0/2 fields x With|Output owner x 3 update shapes x re-opening level); the sampler of the path (Sample copies are given nil, one of two samplers shared over the tree or a fresh one; recording samplers that answer what the harness decides per event: a logger must consult the sampler of its own path only, emit nothing that sampler rejects and everything when its path has none; directed: 3 positions x none|Sample(nil)|Sample(fresh)|Sample(shared) x 6 kinds of derivation step in between, Sample(nil)/Sample(shared) siblings at every position); a stream of rich programs (fields added through Array(user marshaler|Arr()) / Dict / Object / EmbedObject / Fields / Interface, events given 2-3 arrays/dicts that were open at once and filled alternately); pool sweeps: Go-context leavers (10 ways an event given a context ends: Msg/Send, With().Ctx, Dict().Ctx(c) into Event.Dict|Array.Dict|Context.Dict|nil event|another dict, marshalers calling e.Ctx) x 1-3 open at once x 25 takers (marshalers/hooks reached through helper or logger events of a context-less logger) and objects-handed-out-twice (derivation/event actions using pooled arrays and dicts, and every way an event ends its life unwritten - rejected by one / two / three hooks of its derivation path, discarded once or twice by the caller, both, each finished with Msg|Send|Msgf|MsgFunc, recovered Panic(), rejected by a sampler, a hook logging elsewhere before rejecting - x 7 ways a sibling keeps arrays/dicts/events open at once); the Go context of the derivation path = the argument of the last Ctx call on it, nil meaning none (With().Ctx(fresh|nil|shared|none) at three positions x 7 kinds of derivation step in between x three siblings per position, every node read directly and through a Hook() copy; every sequence of 0-3 Event.Ctx(fresh|other|nil|Background) calls on loggers with no / a / a replaced / a removed context, through Info|Log|WithLevel|Err and Print|Printf|Write, every finalizer; pairs of Ctx calls inside one With() chain with marshalers between them; readers: hooks at the root and the leaf and Func callbacks must see exactly that context, marshalers on the event and on the helper events of Dict / Arr / user arrays / Fields / Context.Object|EmbedObject|Dict|Array|Fields, and inside Dict().Ctx(d).Ctx(nil), that context or background); hook lists handed over as a caller-owned slice (parent.Hook(hs...), 1-3 hooks, full / spare capacity / a window of a larger array) under parents with 0-3 hooks (added one per call or as a slice) and one derivation step of each kind before the call, three siblings per parent, the caller afterwards leaving the slice alone / refilling it for the next sibling / overwriting it with other hooks or nil / appending and overwriting the backing array / rotating it, five relatives of each sibling taken before and three after: every logger runs exactly the hooks of its path; every Context method taking a slice or map (Strs, Ints..Uints64, Floats, Bools, Durs, Times, Errs, Bytes, Hex, RawJSON, IPAddr, MACAddr, Fields, Interface) given a caller-owned slice that is overwritten / appended to afterwards, in With()...Logger() and inside UpdateContext: every line reads as before; plus GetCtx probes through pooled helper events, Output keeping the Go context, and a concurrent run under the race detector. Non-trivial = at least 3 emits from at least 2 different arrays' worth of branches; distinct by program text"
+	c.Res.Rule = "derivation programs in SSA form over With / context ops / Logger / Level|Sample|Hook copies / Output / UpdateContext / emit, random trees (6-28 statements, branching, events from every node in random order); 3 streams: inside the property's language, with large values (contexts beyond the 500-byte capacity), and non-linear (a Context value reused: outside the language, K1 shape); context methods are appends or Reset() (on a Context value or inside the UpdateContext function); Level copies set wide / trace..panic / NoLevel / Disabled, every emit also sends one event per level trace..panic (emitted iff at or above the path's level, same context), a muted logger is read through a re-opening Level copy; directed sweeps: Reset() with live relatives (0/1/3 parent fields x Level|Sample|Hook|With|Output relatives x 4 update shapes x UpdateContext|Context value) and muted paths (Level(Disabled|NoLevel|warn|wide) before With() x 0/2 fields x With|Output owner x 3 update shapes x re-opening level); the sampler of the path (Sample copies are given nil, one of two samplers shared over the tree or a fresh one; recording samplers that answer what the harness decides per event: a logger must consult the sampler of its own path only, emit nothing that sampler rejects and everything when its path has none; directed: 3 positions x none|Sample(nil)|Sample(fresh)|Sample(shared) x 6 kinds of derivation step in between, Sample(nil)/Sample(shared) siblings at every position); a stream of rich programs (fields added through Array(user marshaler|Arr()) / Dict / Object / EmbedObject / Fields / Interface, events given 2-3 arrays/dicts that were open at once and filled alternately); pool sweeps: Go-context leavers (10 ways an event given a context ends: Msg/Send, With().Ctx, Dict().Ctx(c) into Event.Dict|Array.Dict|Context.Dict|nil event|another dict, marshalers calling e.Ctx) x 1-3 open at once x 25 takers (marshalers/hooks reached through helper or logger events of a context-less logger) and objects-handed-out-twice (derivation/event actions using pooled arrays and dicts, and every way an event ends its life unwritten - rejected by one / two / three hooks of its derivation path, discarded once or twice by the caller, both, each finished with Msg|Send|Msgf|MsgFunc, recovered Panic(), rejected by a sampler, a hook logging elsewhere before rejecting - x 7 ways a sibling keeps arrays/dicts/events open at once); the Go context of the derivation path = the argument of the last Ctx call on it, nil meaning none (With().Ctx(fresh|nil|shared|none) at three positions x 7 kinds of derivation step in between x three siblings per position, every node read directly and through a Hook() copy; every sequence of 0-3 Event.Ctx(fresh|other|nil|Background) calls on loggers with no / a / a replaced / a removed context, through Info|Log|WithLevel|Err and Print|Printf|Write, every finalizer; pairs of Ctx calls inside one With() chain with marshalers between them; readers: hooks at the root and the leaf and Func callbacks must see exactly that context, marshalers on the event and on the helper events of Dict / Arr / user arrays / Fields / Context.Object|EmbedObject|Dict|Array|Fields, and inside Dict().Ctx(d).Ctx(nil), that context or background); hook lists handed over as a caller-owned slice (parent.Hook(hs...), 1-3 hooks, full / spare capacity / a window of a larger array) under parents with 0-3 hooks (added one per call or as a slice) and one derivation step of each kind before the call, three siblings per parent, the caller afterwards leaving the slice alone / refilling it for the next sibling / overwriting it with other hooks or nil / appending and overwriting the backing array / rotating it, five relatives of each sibling taken before and three after: every logger runs exactly the hooks of its path; every Context method taking a slice or map (Strs, Ints..Uints64, Floats, Bools, Durs, Times, Errs, Bytes, Hex, RawJSON, IPAddr, MACAddr, Fields, Interface) given a caller-owned slice that is overwritten / appended to afterwards, in With()...Logger() and inside UpdateContext: every line reads as before; tiny contexts (field-less roots obtained as New(w) / Nop().Output(w) / Logger{}.Output(w) / New(w).Hook(); children whose whole context is 6-9 bytes - Int(a,1), Bool(b,true), Str of empty key and value, empty keys ...: every ordered pair of 8 tiny fields x siblings of one root / children of two unrelated roots / two Context values alive at once, UpdateContext adding a tiny field to root.With().Logger(), through the heap model and the path monitor; goroutines deriving tiny children of their own roots); the stack flag of the derivation path (ErrorStackMarshaler installed / nil x 10 kinds of derivation step x With().Stack() at any of three positions, siblings enabling it, every node read through Err / Logger.Err / Fields with an error / a child With().Err / Stack() on the event: the stack field appears exactly when the marshaler is installed and the path or the event enabled it); plus GetCtx probes through pooled helper events, Output keeping the Go context, and a concurrent run under the race detector. Non-trivial = at least 3 emits from at least 2 different arrays' worth of branches; distinct by program text"
 	c.OpenShards("From Verif Require Import Base.Prelude Misc.HlogHeap Heap.LoggerHeap Harness.C05H.", "list hstmt * list (list N)", "mismatches c05_run c05_eqb", 400)
 	n := 1500
 	if c.Thorough() {
@@ -996,6 +1017,10 @@ func run(c *Ctx) {
 		}
 		c.Res.ExtraCoverage["rich_programs"] = nr
 	}
+
+	// ---- tiny contexts of field-less roots, and the stack flag of the derivation path (tiny.go) ----
+	tinyContextSweep(c, emitCase)
+	stackPathSweep(c)
 
 	// ---- hooks of the derivation path: siblings derived from one parent value ----
 	// (a parent whose hook slice has spare capacity - hooks added one Hook() call at a time - must not let
